@@ -1247,7 +1247,16 @@ def x_stdlib_misc(c):
     c.ret(Fresh(c.callee[4:]), pure=False)
 
 
-@ext("contextlib.nullcontext", "contextlib.redirect_stdout", "contextlib.redirect_stderr", "contextlib.suppress", "contextlib.ExitStack")
+@ext("contextlib.redirect_stdout", "contextlib.redirect_stderr")
+def x_redirect(c):
+    """redirect_stdout(f) swaps the process-global sys.stdout for the duration of the block (and
+    puts back what it saw on entry): a write of global state, not re-entrant across threads"""
+    s1 = c.s.copy()
+    s1.ev("store", c.site, G("ext:sys." + c.callee.rsplit("_", 1)[1]), c.args[0] if c.args else Fresh("stream"))
+    c.ret(Fresh("ctxmgr"), pure=False, state=s1)
+
+
+@ext("contextlib.nullcontext", "contextlib.suppress", "contextlib.ExitStack")
 def x_contextlib(c):
     """context managers without failure modes of their own (suppress is expanded by the walker
     when it is used directly in a with statement)"""
